@@ -30,11 +30,13 @@ EXPLANATION = (
 
 RULES = {
     "C18-F1": "constrained path of optimize(): the free/fixed lists are a partition of all elements on one predicate that is true "
-              "exactly for the constrained elements; every store into self.var is indexed by the free list (no rebinding of self.var)",
+              "exactly for the constrained elements (for faces: having a feature edge, which no function of the feature status of its vertices decides); "
+              "every store into self.var is indexed by the free list (no rebinding of self.var)",
     "C18-H1": "constrained path: L_II = lap[free,:][:,free], L_IB = lap[free,:][:,fixed], the boundary term is L_IB . self.var[fixed] and enters "
               "every solve with coefficient -1; lap is the connection Laplacian of self.mesh for connection=self.conn, order=self.order, cotan=self.use_cotan",
     "C18-N1": "on every path to a normal exit of optimize() a self.normalize() follows the last write to self.var; normalize() divides every "
-              "non-zero entry by its modulus; the vertex constraint initialisation ends with the normalising loop",
+              "non-zero entry by its modulus; the vertex constraint initialisation ends with the normalising loop, and a guard that keeps two opposite "
+              "contributions from cancelling compares a modulus with a positive threshold (never floating-point values exactly)",
     "C18-E1": "constraint initialisation: a complex number built from the stored direction of an edge (vertices[b] - vertices[a] with a, b = edges[e]) "
               "enters self.var only through an even power - an even literal exponent, or an exponent whose evenness is tested on the path - so that "
               "the constraint does not depend on the orientation in which the edge is stored; the constraint is computed from that direction",
@@ -280,6 +282,11 @@ def f1_h1(ctx, mod, cls, elem):
         seqc = S.canon(seq, lps[0])
         x = elem_t.id if isinstance(elem_t, ast.Name) and idx is None else None
         dom_ok = x is not None and (au.src(seqc) == all_ids[0] or H.is_range_len(seqc, all_ids[1])) and all(H.is_name(c.args[0], x) for c in apps)
+        loop_names = {x} if x else set()
+        if idx is not None and au.const(start) == 0 and au.src(seqc) == all_ids[1] and all(H.is_name(c.args[0], idx) for c in apps):
+            # for T, face in enumerate(self.mesh.faces): the index ranges over all elements
+            x, dom_ok = idx, True
+            loop_names = {idx} | {n.id for n in ast.walk(elem_t) if isinstance(n, ast.Name)}
         if x is not None and au.src(seqc) in ("self.mesh.interior_vertices", "self.mesh.boundary_vertices", "self.feat.feature_vertices",
                                              "self.mesh.interior_faces", "self.mesh.boundary_faces"):
             ctx.fail("C18-F1", ctx.site(mod, fn0, lps[0]), f"{cls}.optimize: the partition does not classify every element of {all_ids[0]}",
@@ -290,8 +297,28 @@ def f1_h1(ctx, mod, cls, elem):
             ctx.undecided("C18-F1", ctx.site(mod, fn0, lps[0]), f"{cls}.optimize: an index list is not filled from a loop over all {elem}", f"found `{au.src(seqc)[:60]}`")
             part_ok = False
             continue
-        ab = H.Abs(atom)
-        alts = [ab.boolean(H.conj(H.alias_conds(S, c, stop=lps[0]))) for c in apps]
+        vertex_based = []
+
+        def atom_v(x_, boolean, _lp=lps[0], _names=loop_names):
+            r = atom(x_, boolean)
+            if r is None and elem == "faces" and boolean:
+                xc = S.canon(x_, _at[0], keep=tuple(sorted(_names)))
+                if _from_vertices_only(xc, _names):
+                    vertex_based.append(xc)
+                    return H.name("constrained")
+            return r
+        ab = H.Abs(atom_v)
+        alts = []
+        _at = [None]
+        for c in apps:
+            _at[0] = au.enclosing_stmt(c)
+            alts.append(ab.boolean(H.conj(H.alias_conds(S, c, stop=lps[0]))))
+        if vertex_based:
+            ctx.fail("C18-F1", ctx.site(mod, fn0, a), f"{cls}.optimize: a face is declared constrained from the feature status of its vertices, not from having a feature edge",
+                     f"`{au.src(vertex_based[0])[:90]}`: a triangle whose vertices lie on feature / border curves without any of its edges being a feature edge "
+                     "(a chord) carries no constraint: it is kept out of the unknowns at a value that was never set, and pollutes the boundary term")
+            part_ok = False
+            continue
         code = alts[0] if len(alts) == 1 else ast.BoolOp(op=ast.Or(), values=alts)
         if ab.unknown:
             ctx.undecided("C18-F1", ctx.site(mod, fn0, a), f"{cls}.optimize: the predicate of the free/fixed partition is not recognised", f"{ab.unknown}")
@@ -415,6 +442,47 @@ def f1_h1(ctx, mod, cls, elem):
                   f"{cls}.optimize: a store into self.var on the constrained path is not indexed by the free list",
                   f"`{au.src(st)[:80]}` overwrites constrained elements: the field must leave every constrained element at its constraint",
                   note="self.var[free] = ...")
+
+
+def _exact_float_test(t):
+    """the test compares self.var[...] with a computed (non constant) floating value exactly: `self.var[k] ==/!= <expr>`,
+    or `abs(self.var[k] +/- <expr>)` against the constant 0.  Returns a description or None"""
+    def reads_var(e):
+        return any(isinstance(n, ast.Subscript) and au.is_self_attr(n.value, "var") for n in ast.walk(e))
+
+    def computed(e):
+        return not isinstance(e, ast.Constant) and not (isinstance(e, ast.UnaryOp) and isinstance(e.operand, ast.Constant)) \
+            and any(isinstance(n, (ast.Call, ast.BinOp)) for n in ast.walk(e))
+    if not (isinstance(t, ast.Compare) and len(t.ops) == 1):
+        return None
+    L, R, op = t.left, t.comparators[0], t.ops[0]
+    if isinstance(op, (ast.Eq, ast.NotEq)):
+        for a_, b_ in ((L, R), (R, L)):
+            if isinstance(a_, ast.Subscript) and au.is_self_attr(a_.value, "var") and computed(b_):
+                return "equality of complex floating-point numbers"
+    for a_, b_, strict in ((L, R, isinstance(op, (ast.Gt, ast.NotEq, ast.Eq, ast.LtE))), (R, L, isinstance(op, (ast.Lt, ast.NotEq, ast.Eq, ast.GtE)))):
+        if strict and isinstance(a_, ast.Call) and au.call_tail(a_) in ("abs", "absolute", "norm") and len(a_.args) == 1 and au.const(b_) in (0, 0.0) \
+                and au.const(b_) is not False and isinstance(a_.args[0], ast.BinOp) and isinstance(a_.args[0].op, (ast.Add, ast.Sub)) and reads_var(a_.args[0]):
+            return "modulus of a sum compared with exactly 0"
+    return None
+
+
+def _from_vertices_only(xc, loop_names):
+    """the (canonical) predicate over a face reads the feature / border status of vertices and nothing about edges:
+    no function of the vertex statuses of a triangle decides whether one of its edges is a feature edge"""
+    text = au.src(xc)
+    if not any(k in text for k in ("feature_vertices", "boundary_vertices", "is_vertex_on_border", "interior_vertices")):
+        return False
+    if any(k in text for k in ("edge", "direct_face", "opposite", "corner", "half")):
+        return False
+    bound = set(loop_names)
+    for n in ast.walk(xc):
+        if isinstance(n, ast.comprehension):
+            bound |= {m.id for m in ast.walk(n.target) if isinstance(m, ast.Name)}
+        elif isinstance(n, ast.Lambda):
+            bound |= {a_.arg for a_ in n.args.args}
+    free_names = {n.id for n in ast.walk(xc) if isinstance(n, ast.Name)} - bound
+    return free_names <= {"self", "sum", "len", "any", "all", "int", "bool", "np", "set", "list", "tuple", "sorted", "min", "max"}
 
 
 # ------------------------------------------------------------------------------ C18-N1
@@ -556,6 +624,16 @@ def n1_normalize(ctx):
     if not accs:
         ctx.undecided("C18-N1", site, "_initialize_variables (vertices): the accumulation of the edge constraints into self.var is not recognised", "")
         return
+    # ---- a guard of an accumulation that compares the accumulated value with the new contribution must do so up to a threshold
+    for a in accs:
+        for t, pol in S.conds(a, stop=fn):
+            t2, _ = au.strip_not(t, pol)
+            ex = _exact_float_test(S.canon(t2, a))
+            if ex:
+                ctx.fail("C18-N1", ctx.site(VERTS, fn0, a), "_initialize_variables (vertices): the guard against two cancelling contributions is an exact floating-point comparison",
+                         f"`{au.src(t2)[:70]}` ({ex}): two opposite representations of a corner cancel only up to round-off, so the second one is let through, the "
+                         "constraint is left with modulus ~1e-16, is skipped by the normalisation and stays a (zero) fixed value; the test has to be a modulus against a threshold")
+                break
     last_top = max(H.block_pos(H.top_stmt_in(fn.body, a)) for a in accs)
     norm_found = None
     for s in fn.body[last_top + 1:]:
